@@ -9,40 +9,29 @@ package ruleset
 import (
 	"errors"
 	"regexp"
+	"slices"
 	"strings"
 )
 
 type RegexpMatcher struct {
-	include *regexp.Regexp
-	exclude *regexp.Regexp
+	include []*regexp.Regexp
+	exclude []*regexp.Regexp
 	inverse bool
 }
 
 var ErrNoIncludeRules = errors.New("no include rules specified")
 
 // NewRegexpMatcher returns the RegexpMatcher with given include and exclude rules.
+// Every rule is evaluated on its own: joining the rules into one alternation would let inline
+// flags, anchors and regexp simplification of one rule change how the others are interpreted.
 func NewRegexpMatcher(include, exclude []*regexp.Regexp) (*RegexpMatcher, error) {
 	if len(include) == 0 {
 		return nil, ErrNoIncludeRules
 	}
 
-	build := func(rules []*regexp.Regexp) *regexp.Regexp {
-		var regex strings.Builder
-		for i := range rules {
-			if i > 0 {
-				regex.WriteString("|")
-			}
-			regex.WriteString(rules[i].String())
-		}
-		if s := regex.String(); s != "" {
-			return regexp.MustCompile(s)
-		}
-		return nil
-	}
-
 	return &RegexpMatcher{
-		include: build(include),
-		exclude: build(exclude),
+		include: slices.Clone(include),
+		exclude: slices.Clone(exclude),
 	}, nil
 }
 
@@ -66,10 +55,17 @@ func (r *RegexpMatcher) Match(s string) bool {
 }
 
 func (r *RegexpMatcher) match(s string) bool {
-	if r.exclude != nil && r.exclude.MatchString(s) {
-		return false
+	for _, e := range r.exclude {
+		if e.MatchString(s) {
+			return false
+		}
 	}
-	return r.include != nil && r.include.MatchString(s)
+	for _, i := range r.include {
+		if i.MatchString(s) {
+			return true
+		}
+	}
+	return false
 }
 
 type RegexpListItem struct {
